@@ -5,6 +5,7 @@ package engine
 import (
 	"math"
 
+	"github.com/openGemini/openGemini/engine/executor"
 	"github.com/openGemini/openGemini/lib/verifrt"
 )
 
@@ -60,17 +61,22 @@ func verifC18RefRate(ts []int64, vs []float64, evalT, rangeNs int64, isCounter, 
 }
 
 // VerifC18RateExtrapolation: rate / increase / delta of the store-side reducer (floatPromRateMerge) equal
-// Prometheus' extrapolatedRate for every window of 2..3 samples, every split of the window over the
-// previous and the current record and arbitrary float values (resets, negative, zero, non-finite).
-// The time layout (range, sample instants on a grid of a quarter of the range) is a path choice, so
-// that the time arithmetic folds to constants and the solver decides over the sample values.
+// Prometheus' extrapolatedRate for every window of 2 (thorough 2..3) samples and arbitrary float values
+// (resets, negative, zero, non-finite). The time layout (range, sample instants on a grid of a quarter of
+// the range) is a path choice, so that the time arithmetic folds to constants and the solver decides over
+// the sample values. How the window is split over the previous and the current record only matters to
+// the counter increase, which VerifC18CounterIncrease covers for every split.
 func VerifC18RateExtrapolation() {
-	n := 2 + verifrt.Choose("n", 1+verifrt.Tier())
-	split := verifrt.Choose("split", n+1) // samples [0,split) come from the previous record
-	mode := verifrt.Choose("mode", 3)     // rate, increase (counters) and delta (gauge)
+	tier := verifrt.Tier()
+	n := 2 + verifrt.Choose("n", 1+tier)
+	split := 1
+	if tier > 0 {
+		split = verifrt.Choose("split", n+1) // samples [0,split) come from the previous record
+	}
+	mode := verifrt.Choose("mode", 3) // rate, increase (counters) and delta (gauge)
 	isCounter, isRate := mode < 2, mode == 0
-	ranges := []int64{500, 1500, 4000, 60000} // milliseconds: below a second, fractional, whole seconds
-	rangeNs := ranges[verifrt.Choose("range", len(ranges))] * 1000000
+	ranges := []int64{1500, 60000, 500, 4000} // milliseconds: fractional seconds, whole seconds, below a second
+	rangeNs := ranges[verifrt.Choose("range", 2+2*tier)] * 1000000
 	evalT := int64(3600) * 1000000000
 	ts := make([]int64, n)
 	vs := make([]float64, n)
@@ -92,5 +98,37 @@ func VerifC18RateExtrapolation() {
 			verifrt.Reach("first-sample-zero")
 		}
 	}
+	verifrt.Reach("end")
+}
+
+// VerifC18CounterIncrease: the raw increase over a window (executor.CalcReduceResult: last minus first
+// value, plus the value before every counter reset) and the first / last sample it reports do not depend
+// on how the window's samples are split over the previous and the current record, and equal Prometheus'
+// reset handling, for arbitrary float values.
+func VerifC18CounterIncrease() {
+	n := 2 + verifrt.Choose("n", 2+verifrt.Tier())
+	split := verifrt.Choose("split", n+1)
+	isCounter := verifrt.Bool("counter")
+	ts := make([]int64, n)
+	vs := make([]float64, n)
+	for i := range ts {
+		ts[i] = int64(i+1) * 1000
+		vs[i] = verifrt.Float64("v")
+	}
+	firstT, lastT, firstV, lastV, inc := executor.CalcReduceResult(ts[:split], ts[split:], vs[:split], vs[split:], isCounter)
+	want := vs[n-1] - vs[0]
+	if isCounter {
+		prev := vs[0]
+		for _, cur := range vs[1:] {
+			if cur < prev {
+				want += prev
+				verifrt.Reach("reset")
+			}
+			prev = cur
+		}
+	}
+	verifrt.Assert(firstT == ts[0] && lastT == ts[n-1], "first / last sample time of the window is wrong")
+	verifrt.Assert(math.Float64bits(firstV) == math.Float64bits(vs[0]) && math.Float64bits(lastV) == math.Float64bits(vs[n-1]), "first / last sample value of the window is wrong")
+	verifrt.Assert(math.Float64bits(inc) == math.Float64bits(want) || (inc != inc && want != want), "the increase over the window differs from Prometheus' reset handling")
 	verifrt.Reach("end")
 }
